@@ -12,7 +12,9 @@
 (***************************************************************************)
 EXTENDS Compiler
 
-CONSTANTS MaxDecls
+CONSTANTS MaxDecls,
+          Placed      \* TRUE: the writer puts fields only inside messages and aliases / constants only at file
+                      \* scope, so that longer programs fit and most rejections come from names and resolution
 
 Names == {"A", "B"}
 Paths == {<<"A">>, <<"B">>, <<"A", "B">>, <<"B", "A">>, <<"A", "A">>}
@@ -41,7 +43,8 @@ Write ==
     /\ \E d \in Menu(Len(ds) + 1) :
         /\ (d.d = "closeMsg") => (open # <<>>)
         /\ (d.d = "openMsg") => (Len(open) < 2)
-        /\ (d.d = "field") => TRUE
+        /\ (Placed /\ d.d = "field") => (open # <<>>)
+        /\ (Placed /\ d.d \in {"alias", "const"}) => (open = <<>>)
         /\ IF d.d = "openEnum"
            THEN /\ Len(ds) + 2 <= MaxDecls + 1
                 /\ ds' = ds \o << d, [d |-> "closeEnum", line |-> Len(ds) + 2] >>
